@@ -3,7 +3,7 @@
 # checks that the pinned suite still passes, and runs ALL checks on it: any VIOLATION / ERROR is a false alarm to investigate.
 set -u
 export GOFLAGS=-mod=mod GOPROXY=off GOSUMDB=off GOTOOLCHAIN=local
-R="$1"; N="$2"; SRC="/tmp/wt/$R.out/$N"
+R="$1"; N="$2"; SRC="/verif/refactorings/$R-$N"
 S=$(mktemp -d /tmp/refeval.XXXXXX)
 trap 'git -C /repo worktree remove --force "$S/w" >/dev/null 2>&1; rm -rf "$S"' EXIT
 git -C /repo worktree add -q --detach "$S/w" HEAD || exit 3
